@@ -68,8 +68,18 @@ func lkLoadPkg(repo, rel, path string) (*lkPkg, error) {
 	if err != nil {
 		return nil, err
 	}
+	// everything is read as the harness builds it: with the verif tag (hooks included), also in imported packages --
+	// the "source" importer works on build.Default
+	hasTag := false
+	for _, tg := range build.Default.BuildTags {
+		if tg == "verif" {
+			hasTag = true
+		}
+	}
+	if !hasTag {
+		build.Default.BuildTags = append(build.Default.BuildTags, "verif")
+	}
 	bctx := build.Default
-	bctx.BuildTags = append(bctx.BuildTags, "verif")
 	fset := token.NewFileSet()
 	var files []*ast.File
 	for _, e := range ents {
